@@ -51,20 +51,20 @@ Proof.
   destruct (fs_ d) as [|[] [|]]; try reflexivity. contradiction.
 Qed.
 
-Lemma multitarget_multi t t2 r deps order recipe phony :
-  multitarget_rule (t :: t2 :: r) deps order recipe phony =
-  Some [mkM (onodes (t :: t2 :: r)) [NStamp (o_file t)] [] false false; mkM [NStamp (o_file t)] deps order true phony].
+Lemma multitarget_multi fx t t2 r deps order recipe phony :
+  multitarget_rule fx (t :: t2 :: r) deps order recipe phony =
+  Some [mkM (onodes (t :: t2 :: r)) [NStamp (o_file t)] [] fx false; mkM [NStamp (o_file t)] deps order true phony].
 Proof. reflexivity. Qed.
 
-Lemma multitarget_prereqs os deps order recipe phony rs o :
-  multitarget_rule os (fs_ deps) order recipe phony = Some rs -> In o (map o_file os) ->
+Lemma multitarget_prereqs fx os deps order recipe phony rs o :
+  multitarget_rule fx os (fs_ deps) order recipe phony = Some rs -> In o (map o_file os) ->
   make_prereqs rs o = Some deps.
 Proof.
   intros E Ho. destruct os as [|t [|t2 r]]; [discriminate| |].
   - unfold multitarget_rule in E. injection E as <-.
     apply make_prereqs_single. change [NF (o_file t)] with (onodes [t]). now apply onodes_mem.
   - remember (t :: t2 :: r) as l eqn:El.
-    assert (E' : rs = [mkM (onodes l) [NStamp (o_file t)] [] false false;
+    assert (E' : rs = [mkM (onodes l) [NStamp (o_file t)] [] fx false;
                        mkM [NStamp (o_file t)] (fs_ deps) order true phony]).
     { subst l. rewrite multitarget_multi in E. congruence. }
     clear E. subst rs.
@@ -79,8 +79,8 @@ Ltac seteqm :=
   repeat match goal with K : _ = [] |- _ => rewrite K; clear K | K : _ = None |- _ => rewrite K; clear K end;
   intros x; repeat (progress cbn [oN app In] || rewrite in_app_iff); tauto.
 
-Theorem deps_exact_make st rs o :
-  shape_ok st = true -> emit_make_step st = Some rs -> In o (outs st) ->
+Theorem deps_exact_make fx st rs o :
+  shape_ok st = true -> emit_make_step fx st = Some rs -> In o (outs st) ->
   exists l, make_prereqs rs o = Some l /\ set_eq l (consumed st).
 Proof.
   intros Hs E Ho. unfold shape_ok, emit_make_step in *. unfold outs in Ho.
@@ -170,13 +170,13 @@ Proof.
 Qed.
 
 (* ------------------------------------------------------------------ C06_deps *)
-Theorem backends_same_deps has st rs o :
-  shape_ok st = true -> NoDup (outs st) -> emit_make_step st = Some rs -> In o (outs st) ->
+Theorem backends_same_deps fx has st rs o :
+  shape_ok st = true -> NoDup (outs st) -> emit_make_step fx st = Some rs -> In o (outs st) ->
   exists lm ln, make_prereqs rs o = Some lm /\ ninja_prereqs (fst (emit_ninja_step has st)) o = Some ln /\
                 set_eq lm ln.
 Proof.
   intros Hs Hnd E Ho.
-  destruct (deps_exact_make st rs o Hs E Ho) as [lm [E1 S1]].
+  destruct (deps_exact_make fx st rs o Hs E Ho) as [lm [E1 S1]].
   destruct (deps_exact_ninja has st o Hs Hnd Ho) as [ln [E2 S2]].
   exists lm, ln. repeat split; try assumption; intros H.
   - apply S2. now apply S1.
@@ -189,19 +189,19 @@ Proof. unfold make_buildable. now rewrite flat_map_app, file_ids_app. Qed.
 Lemma ninja_buildable_app a b : ninja_buildable (a ++ b) = ninja_buildable a ++ ninja_buildable b.
 Proof. unfold ninja_buildable. now rewrite flat_map_app, file_ids_app. Qed.
 
-Lemma multitarget_buildable os deps order recipe phony rs :
-  multitarget_rule os deps order recipe phony = Some rs -> make_buildable rs = map o_file os.
+Lemma multitarget_buildable fx os deps order recipe phony rs :
+  multitarget_rule fx os deps order recipe phony = Some rs -> make_buildable rs = map o_file os.
 Proof.
   intros E. destruct os as [|t [|t2 r]]; [discriminate| |].
   - unfold multitarget_rule in E. injection E as <-. reflexivity.
   - remember (t :: t2 :: r) as l eqn:El.
-    assert (E' : rs = [mkM (onodes l) [NStamp (o_file t)] [] false false; mkM [NStamp (o_file t)] deps order true phony]).
+    assert (E' : rs = [mkM (onodes l) [NStamp (o_file t)] [] fx false; mkM [NStamp (o_file t)] deps order true phony]).
     { subst l. rewrite multitarget_multi in E. congruence. }
     clear E. subst rs. unfold make_buildable. cbn [flat_map mr_targets]. rewrite app_nil_r, file_ids_app.
     rewrite file_ids_onodes. cbn. now rewrite app_nil_r.
 Qed.
 
-Lemma make_step_buildable st rs : emit_make_step st = Some rs -> make_buildable rs = outs st.
+Lemma make_step_buildable fx st rs : emit_make_step fx st = Some rs -> make_buildable rs = outs st.
 Proof.
   unfold emit_make_step, outs. intros E.
   destruct (s_kind st); try (eapply multitarget_buildable; eassumption);
@@ -229,13 +229,13 @@ Proof.
   intros x. rewrite in_app_iff. cbn. tauto.
 Qed.
 
-Lemma make_steps_buildable steps rs : emit_make_steps steps = Some rs -> make_buildable rs = flat_map outs steps.
+Lemma make_steps_buildable fx steps rs : emit_make_steps fx steps = Some rs -> make_buildable rs = flat_map outs steps.
 Proof.
   revert rs; induction steps as [|st r IH]; intros rs E; cbn in E.
   - now injection E as <-.
-  - destruct (emit_make_step st) as [a|] eqn:Ea; [|discriminate].
-    destruct (emit_make_steps r) as [b|] eqn:Eb; [|discriminate]. injection E as <-.
-    rewrite make_buildable_app. cbn [flat_map]. now rewrite (make_step_buildable st a Ea), (IH b eq_refl).
+  - destruct (emit_make_step fx st) as [a|] eqn:Ea; [|discriminate].
+    destruct (emit_make_steps fx r) as [b|] eqn:Eb; [|discriminate]. injection E as <-.
+    rewrite make_buildable_app. cbn [flat_map]. now rewrite (make_step_buildable fx st a Ea), (IH b eq_refl).
 Qed.
 
 Lemma ninja_steps_buildable steps : forall has,
@@ -251,14 +251,14 @@ Qed.
 Lemma cb1_buildable has n ins imp : ninja_buildable (fst (command_build has [NF n] ins imp true)) = [n].
 Proof. exact (command_build_buildable has [mkOut n 0] ins imp true). Qed.
 
-Theorem backends_same_targets sc rs :
-  emit_make sc = Some rs -> set_eq (make_buildable rs) (ninja_buildable (emit_ninja sc)).
+Theorem backends_same_targets fx sc rs :
+  emit_make fx sc = Some rs -> set_eq (make_buildable rs) (ninja_buildable (emit_ninja sc)).
 Proof.
-  unfold emit_make, emit_ninja. destruct (emit_make_steps (sc_steps sc)) as [ms|] eqn:Em; [|discriminate].
+  unfold emit_make, emit_ninja. destruct (emit_make_steps fx (sc_steps sc)) as [ms|] eqn:Em; [|discriminate].
   intros E. assert (E2 : rs = make_all_rule sc ++ ms ++ make_test_rules sc ++ make_install_rules sc) by congruence. clear E. subst rs.
   pose proof (ninja_steps_buildable (sc_steps sc) false) as Hn.
   destruct (emit_ninja_steps false (sc_steps sc)) as [a h1]. cbn [fst] in Hn.
-  rewrite !make_buildable_app, (make_steps_buildable _ _ Em).
+  rewrite !make_buildable_app, (make_steps_buildable _ _ _ Em).
   assert (Ht : make_buildable (make_test_rules sc) = ninja_buildable (fst (ninja_test_rules h1 sc))).
   { unfold make_test_rules, ninja_test_rules. destruct (sc_tests sc) as [[deps extra]|]; [|reflexivity].
     pose proof (cb1_buildable h1 (sc_test_name sc) [NF (sc_tests_name sc)] []) as Hc.
@@ -341,8 +341,8 @@ Proof.
 Qed.
 
 (* alias targets: prerequisites are exactly the declared members, in order (both backends) *)
-Theorem members_alias st rs o has :
-  s_kind st = KAlias -> emit_make_step st = Some rs -> In o (outs st) ->
+Theorem members_alias fx st rs o has :
+  s_kind st = KAlias -> emit_make_step fx st = Some rs -> In o (outs st) ->
   make_prereqs rs o = Some (s_extra_deps st) /\
   ninja_prereqs (fst (emit_ninja_step has st)) o = Some (s_extra_deps st).
 Proof.
